@@ -471,9 +471,15 @@ def r12_ctor_eta(text):
 
 
 # ---------------------------------------------------------------- R13 `for x in &E {`
-def r13_for_ref(text):
+def r13_for_ref(text, idents=()):
+    """`for x in &E {` -> `for x in E.iter() {` ; also `for x in ident {` for the identifiers listed in
+    unit.toml (`r13_idents`: parameters/locals of reference-to-collection type)."""
     m = mask(text)
     eds = []
+    for idn in idents:
+        for mt in re.finditer(r"(?<![A-Za-z0-9_])for\s[^{;]*?\sin\s+(%s)\s*\{" % re.escape(idn), m):
+            e = mt.end(1)
+            eds.append(Edit(e, e, ".iter()", "R13"))
     for mt in re.finditer(r"(?<![A-Za-z0-9_])for(?![A-Za-z0-9_])", m):
         try:
             bo = _cond_end(m, mt.end())
@@ -545,6 +551,8 @@ def apply_rewrites(text, enabled, opts=None):
                 eds = fn(cur, opts.get("r4_statements", ()))
             elif rid == "R10":
                 eds = fn(cur, opts.get("r10_only"))
+            elif rid == "R13":
+                eds = fn(cur, opts.get("r13_idents", ()))
             else:
                 eds = fn(cur)
             if not eds:
